@@ -38,8 +38,9 @@ template <class B> struct BinaryFmt {
         Outcome o;
         try {
             jsoncons::ojson j = jsoncons::ojson::parse(json_text);
-            sim::SimOutbuf ob(capacity, kind);
+            sim::SimOutbuf ob(capacity, kind > 2 ? kind - 2 : kind);
             std::ostream os(&ob);
+        if (kind > 2) os.exceptions(std::ios::badbit | std::ios::failbit);
             B::encode_stream(j, os, variant);
             o.events = os.good() ? "good" : "stream-failed";
             o.stream_failed = ob.failures_fired > 0; o.delivered = ob.written.size();
